@@ -330,3 +330,245 @@ Section FlatObject.
     apply (acc_diffs_flat_sorted r [e]); [discriminate | exact Hf | exact Hs].
   Qed.
 End FlatObject.
+
+(* ---------- the root-group lemma for arbitrary decisions at the root ---------- *)
+Definition root_dec_ok (base : json) (d : decision) (x : diff) : Prop :=
+  d_path d = [] /\ resolve_action base d = Ok x /\ is_clear_all (d_action d) = false.
+
+Lemma apply_loop_root_gen base : forall decs ds cur D,
+  Forall2 (root_dec_ok base) decs ds -> acc_diffs cur ds = Ok D ->
+  apply_loop (mkA base (Some []) base cur false) decs = Ok (mkA base (Some []) base D false).
+Proof.
+  induction decs as [|md r IH]; intros ds cur D HF E; inversion HF; subst; cbn [acc_diffs] in E.
+  - inversion E; subst. reflexivity.
+  - destruct H1 as (Hp & Hr & Hc).
+    destruct (combine_patches (afuel (cur ++ y)) (cur ++ y)) as [c|] eqn:EC; [cbn [bind] in E|discriminate].
+    cbn [apply_loop]. unfold apply_step at 1. cbn [a_merged]. rewrite Hp, split_string_path_nil. cbn [bind].
+    cbn [opath_eqb a_prev path_eqb a_clear_all]. rewrite Hc. cbn [a_resolved]. rewrite Hr. cbn [bind a_diffs].
+    rewrite EC. cbn [bind a_merged a_prev a_resolved a_clear_all]. eapply IH; eassumption.
+Qed.
+
+Theorem apply_root_group_gen base md decs d0 ds D :
+  root_dec_ok base md d0 -> Forall2 (root_dec_ok base) decs ds -> acc_diffs d0 ds = Ok D ->
+  apply_decisions base (md :: decs) = patch (pfuel base D) base D.
+Proof.
+  intros (Hp & Hr & Hc) HF E. unfold apply_decisions. cbn [apply_loop].
+  unfold apply_step at 1. cbn [a_merged]. rewrite Hp, split_string_path_nil. cbn [bind].
+  cbn [opath_eqb a_prev flush a_merged bind get_path]. rewrite Hr, Hc. cbn [bind].
+  match goal with |- bind ?X _ = _ =>
+    replace X with (Ok (mkA base (Some []) base D false) : res astate)
+      by (symmetry; eapply apply_loop_root_gen; eassumption) end.
+  cbn -[patch pfuel]. destruct (patch (pfuel base D) base D); reflexivity.
+Qed.
+
+(* ---------- remote-only and agreeing flat object diffs ---------- *)
+Definition dec_remote_at (p : path) (e : dentry) : decision := mkDec p ARemote false None (Some [e]) None None None.
+Definition dec_either_at (p : path) (e : dentry) : decision := mkDec p AEither false (Some [e]) (Some [e]) None None None.
+
+Lemma add_decision_flat_remote B p e :
+  is_patch e = false ->
+  add_decision B p ARemote None (Some [e]) false None None None = B ++ [dec_remote_at p e].
+Proof. intros He. unfold add_decision. destruct e; try discriminate; reflexivity. Qed.
+
+Lemma add_decision_flat_either B p e :
+  is_patch e = false ->
+  add_decision B p AEither (Some [e]) (Some [e]) false None None None = B ++ [dec_either_at p e].
+Proof. intros He. unfold add_decision. destruct e; try discriminate; reflexivity. Qed.
+
+Lemma rebuild_sorted rest : forall pre,
+  skeys_lt None (pre ++ rest) ->
+  fold_left (fun acc (kv : pystr * dentry) => dict_set (fst kv) (snd kv) acc) (map pair_of rest) (map pair_of pre)
+  = map pair_of (pre ++ rest).
+Proof.
+  induction rest as [|e r IH]; intros pre Hs; cbn [map fold_left].
+  - rewrite app_nil_r. reflexivity.
+  - destruct (dkey e) as [|k] eqn:Ek.
+    { exfalso. clear -Hs Ek. revert Hs. generalize (@None pystr). induction pre as [|x q IHq]; intros prev Hs; simpl in Hs.
+      - rewrite Ek in Hs. exact Hs.
+      - destruct (dkey x); [exact Hs|]. destruct Hs as [_ Hr]. eapply IHq. exact Hr. }
+    destruct (skeys_lt_before pre None e r k Hs Ek) as [Hb _].
+    assert (Hk : key_str_of e = k) by (unfold key_str_of; rewrite Ek; reflexivity).
+    change (fst (pair_of e)) with (key_str_of e). change (snd (pair_of e)) with e. rewrite Hk.
+    rewrite dict_set_append by (rewrite Forall_map; exact Hb).
+    assert (X : map pair_of pre ++ [(k, e)] = map pair_of (pre ++ [e])).
+    { rewrite map_app. simpl. unfold pair_of at 3. rewrite Hk. reflexivity. }
+    rewrite X, IH by (rewrite <- app_assoc; exact Hs). rewrite <- app_assoc. reflexivity.
+Qed.
+
+Lemma remote_fold p R : forall l B,
+  Forall (fun kv => dict_get (fst kv) R = Some (snd kv) /\ is_patch (snd kv) = false) l ->
+  fold_left (fun (acc : res builder) kv =>
+               do B <- acc;
+               b_onesided B p (option_map (fun e => [e]) (dict_get (fst kv) []))
+                              (option_map (fun e => [e]) (dict_get (fst kv) R))) l (Ok B)
+  = Ok (B ++ map (fun kv => dec_remote_at p (snd kv)) l).
+Proof.
+  induction l as [|[k e] r IH]; intros B Hl; simpl.
+  - rewrite app_nil_r. reflexivity.
+  - inversion Hl as [|? ? [Hk He] Hr]; subst. simpl in Hk, He. rewrite Hk. cbn [option_map].
+    unfold b_onesided. cbn [truthy orb andb negb]. rewrite add_decision_flat_remote by exact He.
+    rewrite IH by exact Hr. rewrite <- app_assoc. reflexivity.
+Qed.
+
+Lemma filter_all_false {A} (f : A -> bool) l : (forall x, In x l -> f x = false) -> filter f l = [].
+Proof.
+  induction l as [|x r IH]; intros Hf; [reflexivity|]. cbn [filter]. rewrite (Hf x (or_introl eq_refl)).
+  apply IH. intros y Hy. apply Hf. right. exact Hy.
+Qed.
+
+Section FlatObject2.
+  Variable O : oracles.
+  Variable cfg : config.
+  Variable St : strat.
+  Variable H : hooks.
+  Variable gk : guard_kind.
+  Variable strict : bool.
+  Variable cstrict : bool.
+
+  Lemma as_dict_ok d : skeys_lt None d -> as_dict_based_diff d [] = Ok (map pair_of d).
+  Proof.
+    intros Hs. destruct (as_dict_based_diff d []) as [L|] eqn:EL.
+    - rewrite (as_dict_sorted_id d [] L Hs EL). reflexivity.
+    - exfalso. clear -Hs EL. revert EL. generalize (@nil (pystr * dentry)).
+      generalize (@None pystr) Hs. clear Hs. induction d as [|x r IH]; intros prev Hs' acc E; simpl in E; [discriminate|].
+      simpl in Hs'. destruct (dkey x); [contradiction|]. destruct Hs' as [_ Hr]. eapply IH; eassumption.
+  Qed.
+
+  Lemma lookup_pairs d : skeys_lt None d -> flat d ->
+    Forall (fun kv => dict_get (fst kv) (map pair_of d) = Some (snd kv) /\ is_patch (snd kv) = false) (map pair_of d).
+  Proof.
+    intros Hs Hf.
+    pose proof (sorted_lookup _ (as_dict_sorted d [] _ I (as_dict_ok d Hs))) as Hlook.
+    rewrite Forall_forall in *. intros kv Hin. split; [apply Hlook; exact Hin|].
+    apply in_map_iff in Hin. destruct Hin as (e & <- & He). simpl.
+    unfold flat in Hf. rewrite Forall_forall in Hf. apply Hf. exact He.
+  Qed.
+
+  Lemma merge_dicts_flat_remote M rec base p d :
+    flat d -> skeys_lt None d ->
+    merge_dicts St H strict cstrict M rec base p [] d = Ok (map (dec_remote_at p) d).
+  Proof.
+    intros Hf Hs. unfold merge_dicts. cbn [as_dict_based_diff bind]. rewrite (as_dict_ok d Hs). cbn [bind].
+    cbn [filter]. rewrite filter_absent_nil.
+    pose proof (rebuild_sorted d [] Hs) as HR. cbn [map app] in HR. rewrite HR.
+    match goal with |- bind ?X _ = _ =>
+      replace X with (Ok ([] ++ map (fun kv => dec_remote_at p (snd kv)) (map pair_of d)) : res builder)
+        by (symmetry; apply (remote_fold p (map pair_of d) (map pair_of d) []); apply lookup_pairs; assumption) end.
+    cbn [bind app fold_left]. rewrite map_map.
+    apply resolve_conflicted_dict_no_conf.
+    unfold no_conf. rewrite Forall_map. apply Forall_forall. intros; reflexivity.
+  Qed.
+
+  Theorem onesided_remote_flat_object kv d :
+    d <> [] -> flat d -> skeys_lt None d ->
+    exists decs,
+      decide_merge_with_diff O cfg St H gk strict cstrict (JObj kv) [] d = Ok decs
+      /\ no_conf decs
+      /\ apply_decisions (JObj kv) decs = patch (pfuel (JObj kv) d) (JObj kv) d.
+  Proof.
+    intros Hne Hf Hs.
+    assert (NC : no_conf (map (dec_remote_at []) d)).
+    { unfold no_conf. rewrite Forall_map. apply Forall_forall. intros; reflexivity. }
+    exists (map (dec_remote_at []) d). unfold decide_merge_with_diff, mfuel.
+    replace (depth (JObj kv) + 3) with (S (depth (JObj kv) + 2)) by lia. cbn [merge].
+    rewrite merge_dicts_flat_remote by assumption. cbn [bind].
+    rewrite resolve_strategy_generic_no_conf by exact NC.
+    assert (EV : validated (map (dec_remote_at []) d) = map (dec_remote_at []) d).
+    { unfold validated. rewrite map_map.
+      assert (E1 : map (fun x => drop_strategy (dec_remote_at [] x)) d = map (dec_remote_at []) d) by reflexivity.
+      rewrite E1. apply sort_desc_root. rewrite Forall_map. apply Forall_forall. intros; reflexivity. }
+    rewrite EV. split; [reflexivity|]. split; [exact NC|].
+    destruct d as [|e r]; [congruence|]. cbn [map].
+    eapply (apply_root_group_gen (JObj kv) (dec_remote_at [] e) (map (dec_remote_at []) r) (single e) (map single r)).
+    - repeat split.
+    - clear. induction r as [|x r IH]; cbn [map]; constructor; [repeat split | exact IH].
+    - apply (acc_diffs_flat_sorted r [e]); [discriminate | exact Hf | exact Hs].
+  Qed.
+End FlatObject2.
+
+Section FlatObject3.
+  Variable O : oracles.
+  Variable cfg : config.
+  Variable St : strat.
+  Variable H : hooks.
+  Variable gk : guard_kind.
+  Variable strict : bool.
+  Variable cstrict : bool.
+
+  Lemma b_agreement_flat B p e :
+    is_patch e = false -> b_agreement B p (Some [e]) (Some [e]) = Ok (B ++ [dec_either_at p e]).
+  Proof.
+    intros He. unfold b_agreement. cbn [truthy andb negb odiff_pyeqb].
+    rewrite diff_pyeqb_refl. cbn [negb]. rewrite add_decision_flat_either by exact He. reflexivity.
+  Qed.
+
+  Lemma merge_key_flat_same M rec base p B k e :
+    is_patch e = false ->
+    merge_key St strict cstrict M rec base p B k e e = Ok (B ++ [dec_either_at p e]).
+  Proof.
+    intros He. unfold merge_key, one.
+    destruct (is_remove e); cbn [orb andb].
+    - apply b_agreement_flat. exact He.
+    - rewrite opk_eqb_refl. cbn [negb]. rewrite same_entry_refl. apply b_agreement_flat. exact He.
+  Qed.
+
+  Lemma agree_fold M rec base p R : forall l B,
+    Forall (fun kv => dict_get (fst kv) R = Some (snd kv) /\ is_patch (snd kv) = false) l ->
+    fold_left (fun (acc : res builder) kv =>
+                 do B <- acc;
+                 match dict_get (fst kv) R with
+                 | Some rd => merge_key St strict cstrict M rec base p B (fst kv) (snd kv) rd
+                 | None => Ok B
+                 end) l (Ok B)
+    = Ok (B ++ map (fun kv => dec_either_at p (snd kv)) l).
+  Proof.
+    induction l as [|[k e] r IH]; intros B Hl; simpl.
+    - rewrite app_nil_r. reflexivity.
+    - inversion Hl as [|? ? [Hk He] Hr]; subst. simpl in Hk, He. rewrite Hk.
+      rewrite merge_key_flat_same by exact He. rewrite IH by exact Hr. rewrite <- app_assoc. reflexivity.
+  Qed.
+
+  Lemma merge_dicts_flat_agree M rec base p d :
+    flat d -> skeys_lt None d ->
+    merge_dicts St H strict cstrict M rec base p d d = Ok (map (dec_either_at p) d).
+  Proof.
+    intros Hf Hs. unfold merge_dicts. rewrite (as_dict_ok d Hs). cbn [bind].
+    pose proof (lookup_pairs d Hs Hf) as HL.
+    assert (HN : filter (fun kv : pystr * dentry => match dict_get (fst kv) (map pair_of d) with None => true | Some _ => false end)
+                        (map pair_of d) = []).
+    { apply filter_all_false. intros kv Hin. rewrite Forall_forall in HL. destruct (HL kv Hin) as [-> _]. reflexivity. }
+    rewrite HN. cbn [fold_left bind].
+    match goal with |- bind ?X _ = _ =>
+      replace X with (Ok ([] ++ map (fun kv => dec_either_at p (snd kv)) (map pair_of d)) : res builder)
+        by (symmetry; apply (agree_fold M rec base p (map pair_of d) (map pair_of d) []); exact HL) end.
+    cbn [bind app]. rewrite map_map.
+    apply resolve_conflicted_dict_no_conf.
+    unfold no_conf. rewrite Forall_map. apply Forall_forall. intros; reflexivity.
+  Qed.
+
+  Theorem agree_flat_object kv d :
+    d <> [] -> flat d -> skeys_lt None d ->
+    exists decs,
+      decide_merge_with_diff O cfg St H gk strict cstrict (JObj kv) d d = Ok decs
+      /\ no_conf decs
+      /\ apply_decisions (JObj kv) decs = patch (pfuel (JObj kv) d) (JObj kv) d.
+  Proof.
+    intros Hne Hf Hs.
+    assert (NC : no_conf (map (dec_either_at []) d)).
+    { unfold no_conf. rewrite Forall_map. apply Forall_forall. intros; reflexivity. }
+    exists (map (dec_either_at []) d). unfold decide_merge_with_diff, mfuel.
+    replace (depth (JObj kv) + 3) with (S (depth (JObj kv) + 2)) by lia. cbn [merge].
+    rewrite merge_dicts_flat_agree by assumption. cbn [bind].
+    rewrite resolve_strategy_generic_no_conf by exact NC.
+    assert (EV : validated (map (dec_either_at []) d) = map (dec_either_at []) d).
+    { unfold validated. rewrite map_map.
+      assert (E1 : map (fun x => drop_strategy (dec_either_at [] x)) d = map (dec_either_at []) d) by reflexivity.
+      rewrite E1. apply sort_desc_root. rewrite Forall_map. apply Forall_forall. intros; reflexivity. }
+    rewrite EV. split; [reflexivity|]. split; [exact NC|].
+    destruct d as [|e r]; [congruence|]. cbn [map].
+    eapply (apply_root_group_gen (JObj kv) (dec_either_at [] e) (map (dec_either_at []) r) (single e) (map single r)).
+    - repeat split.
+    - clear. induction r as [|x r IH]; cbn [map]; constructor; [repeat split | exact IH].
+    - apply (acc_diffs_flat_sorted r [e]); [discriminate | exact Hf | exact Hs].
+  Qed.
+End FlatObject3.
